@@ -53,6 +53,17 @@ def run_check(ctx, mod, ev_path):
     vlib.import_repo()
     model_ok = True
 
+    # 0: has the source this property is anchored in changed since the hand models were written? (widens the sampling, nothing else)
+    try:
+        import fingerprint
+        ctx.source_changed = fingerprint.changed()      # any file of the package: the anchors name where a property lives, not everything it calls
+    except Exception as e:  # noqa
+        ctx.source_changed = []
+        ctx.notes.append("fingerprint comparison failed: " + str(e)[:100])
+    if ctx.source_changed:
+        ctx.notes.append("anchored source differs from the recorded fingerprints (sampling widened 8x): " + ", ".join(ctx.source_changed[:12]))
+        ctx.cov["source_changed"] = ctx.source_changed[:40]
+
     # 1+2: regenerate, build, audit ----------------------------------------------------------------
     with vlib.lean_lock():
         gen_status = vlib.regenerate(spec.get("gen", []))
